@@ -1,5 +1,9 @@
 """runner.py - executes one property's correspondence run and oracle for one
-backend in a fresh process:   python runner.py <prop> <tier> <backend> <seed> <out.json>
+backend in a fresh process:
+    python runner.py <prop> <tier> <backend> <seed> <out.json> [<shard> <nshards> [<replay.json>]]
+Environment VERIF_EXACT=1: exact mode - the correspondence (Ctx.corr) executes the
+library on exact rationals and compares with == (harness/exact.py); the result
+gets "exact": true and the exact_* counters.
 """
 import json
 import os
@@ -31,6 +35,15 @@ class Ctx(object):
         self.cy = backend == "cy"
         self.ps, self.mods = backend_mod.load(backend)
         self.impl = adapters.Impl(self.ps, self.mods, backend)
+        # exact mode (VERIF_EXACT=1): the correspondence runs the library on exact
+        # rationals (harness/exact.py) and compares with ==; everything else (the
+        # property oracles, ctx.call) keeps using the float path unchanged
+        self.exact = os.environ.get("VERIF_EXACT") == "1"
+        self.xstats = None
+        if self.exact:
+            import exact
+            exact.install(self.ps, self.mods)
+            self.xstats = exact.Stats()
         self.space = inputs.Space(tier, seed)
         self.rng = random.Random(seed * 1000003 + (1 if self.cy else 0) + 7919 * shard)
         self.corr_evals = 0
@@ -73,7 +86,12 @@ class Ctx(object):
         mcases = [(rid, ([self.cy] if adapters.ROUTINES[rid][1] else []) + list(args)) for rid, args in cases]
         mout = core.run_model(mcases)
         for (rid, args), mv in zip(cases, mout):
-            iv = self.call(rid, args)
+            if self.exact:
+                import exact
+                d, iv, self._last_exact = exact.compare(self.impl, rid, args, mv, tol, self.xstats)
+            else:
+                iv = self.call(rid, args)
+                d = core.agree(mv, iv, tol)
             self.corr_evals += 1
             name = adapters.ROUTINES[rid][0]
             self.per_routine[name] = self.per_routine.get(name, 0) + 1
@@ -83,7 +101,6 @@ class Ctx(object):
             if len(self.samples) < 3 and nt and self.rng.random() < 0.01:
                 self.samples.append({"routine": name, "backend": self.backend, "args": core.enc(args),
                                      "model": core.enc(_enc_model(mv))})
-            d = core.agree(mv, iv, tol)
             if d:
                 self.add_mismatch(rid, args, mv, iv, d)
 
@@ -113,6 +130,8 @@ class Ctx(object):
                                             "args": core.enc(a), "model": repr(mvd)[:400], "impl": repr(iv)[:400], "diff": d,
                                             "functional": functional, "custom": True,
                                             "shard": self.shard, "nshards": self.nshards})
+                    if self.exact:
+                        self.mismatches[-1]["exact"] = True
 
     def add_mismatch(self, rid, args, mv, iv, d):
         if len(self.mismatches) < self.max_report:
@@ -122,6 +141,9 @@ class Ctx(object):
                 "model": core.enc(_enc_model(mv)), "impl": repr(iv)[:400], "diff": d,
                 "functional": bool(getattr(self, "_functional", False)),
                 "shard": self.shard, "nshards": self.nshards})
+            if self.exact:      # found by an exact worker: replay it in exact mode
+                self.mismatches[-1]["exact"] = True
+                self.mismatches[-1]["exact_value"] = bool(getattr(self, "_last_exact", False))
         else:
             self.notes.append("more correspondence mismatches suppressed")
 
@@ -139,6 +161,8 @@ class Ctx(object):
                  "expected": _short(expected), "got": _short(got),
                  "shard": self.shard, "nshards": self.nshards}
             v.update(extra)
+            if self.exact:
+                v["exact"] = True
             self.violations.append(v)
 
     def sample(self, s):
@@ -202,7 +226,10 @@ def main():
         "samples": ctx.samples,
         "hist": ctx.hist, "per_routine": ctx.per_routine, "notes": sorted(set(ctx.notes)),
         "wall_s": time.time() - t0,
+        "exact": ctx.exact,
     }
+    if ctx.exact:
+        res.update(ctx.xstats.as_dict())
     with open(out, "w") as f:
         json.dump(res, f)
 
